@@ -142,7 +142,8 @@ def ex_e2e(ctx, case, test="BS", num_sim=4, seed=1, layout="C", inject=False, sc
     ctx.current_case = rc
     if test == "BS":
         fn, mod, lam, wobs = be.binary_spatial_test, be, rates.sum(axis=1), w.sum(axis=1)
-        empty_cells = numpy.nonzero((wobs == 0) & (lam > 0))[0]
+        unflagged = numpy.ones(lam.shape, dtype=bool) if getattr(reg, "_verif_mask", None) is None else numpy.asarray(reg._verif_mask) == 1
+        empty_cells = numpy.nonzero((wobs == 0) & (lam > 0) & unflagged)[0]
         if seed % 3 == 1 and empty_cells.size:
             # the spatial test grids the catalog in space only: an event BELOW the forecast's lowest magnitude edge, alone in its cell, still
             # makes that cell active
